@@ -385,24 +385,31 @@ def check_property(prop: str, tier: str, seed: int, quiet: bool = False) -> int:
                 a = sorted(x["oid"] for x in base.failed); b = sorted(x["oid"] for x in r2.failed)
                 if a != b or r2.status == "undecided":
                     unstable.append({"unit": r2.unit, "seed": sd, "baseline_failed": a, "seed_failed": b, "reason": r2.reason})
-    # known-finding variants: the omitted clause is verified separately and is expected to fail
+    # known-finding variants: the omitted clauses of this property are put back in ONE extra build per unit and are
+    # expected to fail there (the main build above never sees them, so callers cannot rely on a false clause)
     kf_lines = []
     kf_results = []
-    for k in known:
-        if k["property"] != prop: continue
-        unit = k["obligation"].split("/")[0]
+    mine = [k for k in known if k["property"] == prop or prop in k.get("also", [])]
+    by_unit: Dict[str, List[dict]] = {}
+    for k in mine:
+        by_unit.setdefault(k["obligation"].split("/")[0], []).append(k)
+    for unit, ks in by_unit.items():
         sp = os.path.join(ROOT, "specs", unit + ".vs")
         if not os.path.exists(sp): continue
-        omit = kf_omit - {k["obligation"]}
+        omit = kf_omit - set(k["obligation"] for k in ks)
         r = run_unit(sp, tier, 0, omit, False, None, "_kf", prop)
-        still = any(x["oid"] == k["obligation"] for x in r.failed)
-        kf_results.append({"obligation": k["obligation"], "still_fails": still, "status": r.status, "reason": r.reason})
-        if still:
-            kf_lines.append(f"KNOWN-FINDING: property={prop} {k['obligation']} -- {k['witness']}")
-        elif r.status == "undecided":
-            kf_lines.append(f"NOTE: known finding {k['obligation']} could not be re-checked: {r.reason[:200]}")
-        else:
-            kf_lines.append(f"NOTE: known finding {k['obligation']} no longer fails (clause now proves)")
+        failed_oids = set(x["oid"] for x in r.failed)
+        for k in ks:
+            still = k["obligation"] in failed_oids
+            kf_results.append({"obligation": k["obligation"], "still_fails": still, "status": r.status, "reason": r.reason})
+            if still:
+                kf_lines.append(f"KNOWN-FINDING: property={prop} {k['obligation']} -- {k['witness']}")
+            elif r.status == "undecided":
+                kf_lines.append(f"NOTE: known finding {k['obligation']} could not be re-checked: {r.reason[:200]}")
+            else:
+                kf_lines.append(f"NOTE: known finding {k['obligation']} no longer fails (clause now proves)")
+        # any OTHER obligation failing in the variant build that is not failing in the main build is suspicious but is
+        # caused by the put-back clauses only (same functions); it is not reported
     # collect
     undecided = [r for r in results if r.status == "undecided"]
     obligations = []; failed = []
